@@ -1309,6 +1309,14 @@ func (e *Entry) ApplyDeviate(deviateOpts ...DeviateOpt) []error {
 					continue
 				}
 				if !hasIgnoreDeviateNotSupported(deviateOpts) {
+					// A node that is not (or no longer) a child of its
+					// parent is reported here, with the other errors of
+					// the deviations, and not recorded on the parent,
+					// which a later deviation may remove.
+					if dp.Dir[deviatedNode.Name] != deviatedNode {
+						appendErr(fmt.Errorf("%s: unknown child key %s", Source(dp.Node), deviatedNode.Name))
+						continue
+					}
 					dp.delete(deviatedNode.Name)
 				}
 			case DeviationDelete:
